@@ -29,7 +29,9 @@ RULE = (
     " names; scope registrations with BlockPosition.ANYWHERE; blocks"
     " shared by two functions. One configuration rewrites every"
     " scenario of its batch a second time in the same process (state"
-    " kept in process-wide objects must not show)."
+    " kept in process-wide objects must not show). 30% of the inputs have"
+    " non-uniform return edges (one return of a function only returns to"
+    " a proxy)."
 )
 ASSUMPTIONS = [
     "a nondeterminism that needs one specific address collision may be missed",
@@ -81,6 +83,7 @@ def gen_case(rng, tier, index):
                     "caller": rng.random() < 0.2,
                     "align": rng.random() < 0.2}
         g.case["second_rewrite"] = rng.random() < 0.4
+        g.case["imprecise_returns"] = rng.random() < 0.3
         cases.append(g.case)
     return {"cases": cases, "tier": tier}
 
